@@ -84,8 +84,8 @@ class RecList(Sort):
 
 class Map(Sort):
     """Configuration table as an environment value: total function + membership predicate."""
-    def __init__(self, keykind, valkind, val_lo=None, val_hi=None):
-        self.keykind, self.valkind, self.val_lo, self.val_hi = keykind, valkind, val_lo, val_hi
+    def __init__(self, keykind, valkind, val_lo=None, val_hi=None, total=False):
+        self.keykind, self.valkind, self.val_lo, self.val_hi, self.total = keykind, valkind, val_lo, val_hi, total
 
 
 class Expr(Sort):
@@ -93,6 +93,27 @@ class Expr(Sort):
     are not in the function's signature are allowed and are not passed to the function)."""
     def __init__(self, src):
         self.src = src
+
+
+class Config(Sort):
+    """A culture-configuration object: tables (Map sorts), plain values (sorts) and functions
+    (name -> (list of arg kinds, result kind, lo, hi): an uninterpreted function); any other attribute is an
+    opaque token (usable as a regex pattern)."""
+    def __init__(self, tables=None, values=None, funcs=None):
+        self.tables, self.values, self.funcs = tables or {}, values or {}, funcs or {}
+
+
+class Returns(Sort):
+    """In Config.funcs: a method of the configuration that returns a fresh value of `sort` on every call."""
+    def __init__(self, sort):
+        self.sort = sort
+
+
+class Match(Sort):
+    """A regex match object handed to the function: named groups are given by contract expressions over the
+    parameters declared before it; geometry is R1 only (full=True: the match spans the whole string)."""
+    def __init__(self, groups=None, string=None, full=False):
+        self.groups, self.string, self.full = groups or {}, string, full
 
 
 class Opaque(Sort):
@@ -132,6 +153,8 @@ def build(I, sort, hint):
         return d
     if isinstance(sort, Const):
         return sort.value
+    if isinstance(sort, Expr):
+        return I.eval_src(sort.src, I._top_frame)
     if isinstance(sort, Rec):
         cls = I.repo.find(sort.ident)
         if sort.init is not None:
@@ -166,6 +189,10 @@ def build(I, sort, hint):
         has = z3.Function(I.p.fresh_name(hint + '_has'), ks, z3.BoolSort())
         get = z3.Function(I.p.fresh_name(hint + '_get'), ks, vs)
         m = lib.SMap(hint, sort.keykind, sort.valkind, has, get)
+        m.has_decl, m.get_decl = has, get
+        if sort.total:
+            m.has = lambda t: z3.BoolVal(True)
+            m.has_decl = None
         if sort.val_lo is not None or sort.val_hi is not None:
             k = z3.Const(I.p.fresh_name('k'), ks)
             body = []
@@ -178,6 +205,41 @@ def build(I, sort, hint):
     if isinstance(sort, Opaque):
         o = Obj(None, {}, label=hint)
         return o
+    if isinstance(sort, Config):
+        from . import envmodel as E
+        tables = {k: build(I, v, f'{hint}_{k}') for k, v in sort.tables.items()}
+        values = {k: build(I, v, f'{hint}_{k}') for k, v in sort.values.items()}
+        funcs = {}
+        for k, spec in sort.funcs.items():
+            if isinstance(spec, Returns):
+                cnt = [0]
+
+                def fn2(I2, a, kw, _s=spec.sort, _k=k, _c=cnt):
+                    _c[0] += 1
+                    return build(I2, _s, f'{hint}_{_k}{_c[0]}')
+                funcs[k] = E.EnvFunc(k, fn2)
+                continue
+            argk, retk, lo, hi = spec
+            uf = z3.Function(I.p.fresh_name(f'{hint}_{k}'), *[sort_of(a) for a in argk], sort_of(retk))
+
+            def fn(I2, a, kw, _uf=uf, _argk=argk, _retk=retk, _lo=lo, _hi=hi):
+                ts = [I2.term(I2.resolve(x), kk) for x, kk in zip(a, _argk)]
+                r = _uf(*ts)
+                if _lo is not None:
+                    I2.p.assume(r >= _lo)
+                if _hi is not None:
+                    I2.p.assume(r <= _hi)
+                return Sym(_retk, r)
+            funcs[k] = E.EnvFunc(k, fn)
+            funcs[k].uf = uf
+        return E.EnvConfig(hint, tables, values, funcs)
+    if isinstance(sort, Match):
+        from . import envmodel as E
+        s = I.eval_src(sort.string, I._top_frame) if sort.string else I.fresh(STR, hint + '_string')
+        groups = {k: I.eval_src(v, I._top_frame) for k, v in sort.groups.items()}
+        mv = E.fresh_match(I, s, hint, sort.full, groups)
+        mv.declared_only = True
+        return mv
     raise Unsupported(f'sort {sort!r}')
 
 
